@@ -3,7 +3,7 @@
    executable reference IS the documented semantics (selection = highest precedence among the matching rules, pass-through,
    termination, composition); that the engine computes the same function is the correspondence check of tools/props/c06.py,
    which compiles random rule programs to fonts and compares the engine's output with the extracted reference. *)
-From GR Require Import Base.Bytes Model.RuleModel Proofs.RuleProofs.
+From GR Require Import Base.Bytes Model.RuleModel Proofs.RuleProofs Proofs.LoopBridge.
 From Coq Require Import NArith ZArith.
 
 (* At each position the rule that fires is a rule of the pass, matches the stream around the position, and no matching rule
@@ -40,6 +40,14 @@ Print Assumptions C06_passes_compose.
 Theorem C06_positioning_keeps_length : forall adv rules fuel l i, length (run_pass adv true fuel rules l i) = length l.
 Proof. exact positioning_keeps_length. Qed.
 Print Assumptions C06_positioning_keeps_length.
+
+(* The full loop semantics (cursor adjustment, high-water mark, loop counter, insert budget — the definitions the correspondence
+   check runs against the engine): a pass always ends by itself, the fuel of run_pass_b is never what stops it, so the stream it
+   returns is the one the loop really ends with. *)
+Theorem C06_loop_pass_terminates : forall adv positioning maxloop rules l n, (1 <= maxloop)%nat -> l <> nil ->
+  ls_s (loop_run adv positioning maxloop rules (pass_fuel_b maxloop l (Some n)) (st_init maxloop l (Some n))) = None.
+Proof. exact pass_terminates. Qed.
+Print Assumptions C06_loop_pass_terminates.
 
 (* non-vacuity: "ab" -> c (deleting b), "d" -> a inserted before it with advance 1234; the longer rule wins over the shorter *)
 Example C06_example :
